@@ -254,10 +254,11 @@ def check(ctx: Ctx) -> None:
     torch.set_default_dtype(torch.float64)
     closed_forms(ctx)
     from checks import bs_common
+    from lib.bsgrid import Grid
     bs_common.strike_spelling(ctx, "greeks")
     bs_common.inplace_between_calls(ctx)
     bs_common.broadcasting(ctx, "greeks")
-    from lib.bsgrid import Grid
+    bs_common.python_strike_on_lattice(ctx, Grid("quick"), greeks=("delta", "gamma", "vega", "theta"))
     bs_common.batch_consistency(ctx, Grid("quick"), greeks=("delta", "gamma", "vega", "theta"))
     bound_modules_after_strike_change(ctx)
     bound_modules_without_arguments(ctx)
